@@ -79,6 +79,8 @@ def fabricate(tok, version):
             return CertificateRequest(version).create(context=bytearray(b""), extensions=[ext])
         return CertificateRequest(version).create([ClientCertificateType.rsa_sign, ClientCertificateType.ecdsa_sign], [],
                                                   [(HashAlgorithm.sha256, SignatureAlgorithm.rsa)])
+    if tok == "NOCERT":
+        return Alert().create(AlertDescription.no_certificate, AlertLevel.warning)
     if tok == "WARN":
         return Alert().create(AlertDescription.user_canceled, AlertLevel.warning)
     raise ValueError(tok)
@@ -280,6 +282,8 @@ def plan_from_script(n, script):
             items.insert(k - 1, items[t - 1])
         elif op == "glue":
             items[k - 1] = ("glue", items[k - 1][1]) if items[k - 1][0] == "h" else items[k - 1]
+        elif op == "rep":
+            items[k - 1] = ("fab", t)
         else:
             raise ValueError(op)
     return items
